@@ -1,0 +1,18 @@
+//go:build verif
+
+package clightning
+
+import (
+	"github.com/elementsproject/glightning/glightning"
+)
+
+// Verification hooks (build tag "verif" only).
+
+// VerifBuildDirectClaimRoute exports buildDirectClaimRoute.
+func VerifBuildDirectClaimRoute(
+	bolt11 *glightning.DecodedBolt11,
+	scid string,
+	maxTotalCLTVDelta uint32,
+) ([]glightning.RouteHop, error) {
+	return buildDirectClaimRoute(bolt11, scid, maxTotalCLTVDelta)
+}
